@@ -16,8 +16,8 @@
    The scalars are an arbitrary commutative ring (R, r0, r1, radd, rmul, rsub, ropp with ring_theory). *)
 From Coq Require Import List Arith Bool NArith Ring.
 From Verif.lib Require Import FinSet.
-From Verif.C04 Require Import Model Proofs ProofsFun.
-From Verif.C03 Require Import Model Proofs Proofs2 Proofs3.
+From Verif.C04 Require Import Model Proofs ProofsFun ProofsMesh.
+From Verif.C03 Require Import Model Proofs Proofs2 Proofs3 Proofs4.
 Import ListNotations.
 
 (* neighbours are complete: for every space st (no reachability needed), every level pair i < k (REPAIRED code:
@@ -160,7 +160,7 @@ Theorem hassemble_entry_partial : forall (R : Type) (r0 r1 : R) radd rmul rsub r
   local R r0 st a ->
   P_local R st pmat ->
   (forall k, k < numlevels st -> mesh_ok (msh st k)) ->
-  (forall k k', dim (msh st k) = dim (msh st k')) ->
+  (forall k k', k < numlevels st -> k' < numlevels st -> dim (msh st k) = dim (msh st k')) ->
   (forall k f, In f (AFm st k) -> In f (tp_functions (msh st k))) ->
   (forall k r, In r (interlevel R st pmat k) -> In r (tp_functions (msh st k))) ->
   forall li fi lj fj,
@@ -230,3 +230,25 @@ Theorem fancy_index_columns : forall (R : Type) (r0 : R) (M : smat R) (idx : lis
   sm_get R r0 (sm_cols R M idx) i (N.of_nat p) = sm_get R r0 M i (nth p idx 0%N).
 Proof. exact sm_cols_get. Qed.
 Print Assumptions fancy_index_columns.
+
+(* The entry characterisation for every REACHABLE space: st = run (hs_init axes disp) ops for valid axes (C04 axis_ok),
+   disparity >= 1 or infinite and any history of valid refinement calls.  The C04 invariants that hassemble_entry_partial
+   assumes (mesh_ok of every level = C04 tables_consistent, equal dimensions, active functions are functions of their mesh =
+   C04 activity_characterisation) are DISCHARGED.  Remaining named hypotheses: locality of the level forms, P_local (children
+   inside the parent's support) and the shape condition on the prolongator data (interlevel_ix inside the index box). *)
+Theorem hassemble_entry_reachable_partial : forall (R : Type) (r0 r1 : R) radd rmul rsub ropp,
+  ring_theory r0 r1 radd rmul rsub ropp eq ->
+  forall axes disp ops,
+  Forall axis_ok axes -> (forall d, disp = Some d -> 1 <= d) -> ops_valid (hs_init axes disp) ops ->
+  let st := run (hs_init axes disp) ops in
+  forall (pmat : nat -> nat -> smat R) (a : nat -> mi -> mi -> R),
+  local R r0 st a ->
+  P_local R st pmat ->
+  (forall k r, In r (interlevel R st pmat k) -> In r (tp_functions (msh st k))) ->
+  forall li fi lj fj,
+  li < numlevels st -> lj < numlevels st -> In fi (AFm st li) -> In fj (AFm st lj) ->
+  blk_entry R r0 radd rmul a (repc R r0 r1 radd rmul st pmat) (nbr st) (interlevel R st pmat) (to_assemble R st pmat)
+            false li fi lj fj
+  = spec_entry R r0 radd rmul a (repc R r0 r1 radd rmul st pmat) (fun k => tp_functions (msh st k)) li fi lj fj.
+Proof. exact hassemble_entry_reachable_l. Qed.
+Print Assumptions hassemble_entry_reachable_partial.
